@@ -98,7 +98,8 @@ Lemma notifyf_ok : forall sc f h x, HI h -> h_err h = 0 -> ok_slot h x -> termin
   (forall y, ok_slot h y -> sr y <> sr x -> ok_slot h' y) /\
   nterm (hgot h' (sr x)) = 1%nat /\
   (forall r, r <> sr x -> h_reqs h' r = h_reqs h r) /\
-  (forall r, r_status (h_reqs h' r) = r_status (h_reqs h r) /\ r_kind (h_reqs h' r) = r_kind (h_reqs h r)) /\
+  (forall r, r_status (h_reqs h' r) = r_status (h_reqs h r) /\ r_kind (h_reqs h' r) = r_kind (h_reqs h r) /\
+             r_key (h_reqs h' r) = r_key (h_reqs h r)) /\
   (forall o, o_dl (h_objs h' o) = o_dl (h_objs h o) /\ o_key (h_objs h' o) = o_key (h_objs h o) /\
              o_cid (h_objs h' o) = o_cid (h_objs h o) /\ o_sid (h_objs h' o) = o_sid (h_objs h o)).
 Proof.
@@ -159,14 +160,15 @@ Proof.
     unfold ok_slot. rewrite Hn1, Hn2, Hobj, Hreq, Hg, Hso, Hne. repeat split; auto.
   - rewrite Hg, N.eqb_refl, nterm_app, E. unfold nterm. cbn. rewrite Het. reflexivity.
   - intros r Hr1. rewrite Hreq. apply N.eqb_neq in Hr1. rewrite Hr1. reflexivity.
-  - intros r. rewrite Hreq. destruct (r =? sr x) eqn:Er; [apply N.eqb_eq in Er; subst r|]; split; reflexivity.
+  - intros r. rewrite Hreq. destruct (r =? sr x) eqn:Er; [apply N.eqb_eq in Er; subst r|]; repeat split; reflexivity.
   - intros o0. rewrite Hobj. destruct (o0 =? so x) eqn:Er; [apply N.eqb_eq in Er; subst o0|]; repeat split; reflexivity.
 Qed.
 
 Definition frame (h h' : heap) : Prop :=
   h_err h' = 0 /\ h_broken h' = h_broken h /\ h_clock h' = h_clock h /\ h_nreq h' = h_nreq h /\
   h_nobj h' = h_nobj h /\ h_pool h' = h_pool h /\
-  (forall r, r_status (h_reqs h' r) = r_status (h_reqs h r) /\ r_kind (h_reqs h' r) = r_kind (h_reqs h r)) /\
+  (forall r, r_status (h_reqs h' r) = r_status (h_reqs h r) /\ r_kind (h_reqs h' r) = r_kind (h_reqs h r) /\
+             r_key (h_reqs h' r) = r_key (h_reqs h r)) /\
   (forall o, o_dl (h_objs h' o) = o_dl (h_objs h o) /\ o_key (h_objs h' o) = o_key (h_objs h o) /\
              o_cid (h_objs h' o) = o_cid (h_objs h o) /\ o_sid (h_objs h' o) = o_sid (h_objs h o)).
 
@@ -176,8 +178,9 @@ Lemma frame_trans : forall a b c, frame a b -> frame b c -> frame a c.
 Proof.
   intros a b c (A1 & A2 & A3 & A4 & A5 & A6 & A7 & A8) (B1 & B2 & B3 & B4 & B5 & B6 & B7 & B8).
   unfold frame. repeat split; try congruence.
-  - rewrite (proj1 (B7 r)). apply A7.
-  - rewrite (proj2 (B7 r)). apply A7.
+  - destruct (B7 r) as (X & _). rewrite X. apply A7.
+  - destruct (B7 r) as (_ & X & _). rewrite X. apply A7.
+  - destruct (B7 r) as (_ & _ & X). rewrite X. apply A7.
   - destruct (B8 o) as (X & _). rewrite X. apply A8.
   - destruct (B8 o) as (_ & X & _). rewrite X. apply A8.
   - destruct (B8 o) as (_ & _ & X & _). rewrite X. apply A8.
@@ -272,6 +275,7 @@ Proof.
         apply N.eqb_eq in Eo. rewrite Eo in O1. fold o in O1. rewrite Hoo in O1. apply N.eqb_neq in Er. congruence.
     + intros o0 Ho0. rewrite Hobj. destruct (o0 =? so x) eqn:Eo; [apply N.eqb_eq in Eo; subst o0; cbn|]; apply Hi; auto.
   - unfold frame. repeat split; auto.
+    + rewrite Hreq. destruct (r =? sr x) eqn:Er; [apply N.eqb_eq in Er; subst r|]; reflexivity.
     + rewrite Hreq. destruct (r =? sr x) eqn:Er; [apply N.eqb_eq in Er; subst r|]; reflexivity.
     + rewrite Hreq. destruct (r =? sr x) eqn:Er; [apply N.eqb_eq in Er; subst r|]; reflexivity.
     + rewrite Hobj. destruct (o0 =? so x) eqn:Er; [apply N.eqb_eq in Er; subst o0|]; reflexivity.
@@ -502,22 +506,62 @@ Record LI (s : st) : Prop := mkLI {
 Lemma NoDup_app_r : forall A (a b : list A), NoDup (a ++ b) -> NoDup b.
 Proof. induction a as [|x a IH]; cbn; intros b Hn; [exact Hn|]. inversion Hn; subst. apply IH. assumption. Qed.
 
-(* the step notified [map snd l], silently forgot [drop], kept the rest *)
-Lemma LI_finish : forall s s' l drop, LI s -> h_err (H s) = 0 ->
-  Forall (fun t => terminal (snd (fst t))) l ->
-  Permutation (live s) (map snd l ++ drop ++ live s') ->
-  H s' = nseq l (H s) -> NoDup (map fst (pend (P s'))) -> cm_b (P s') = None ->
-  LI s' /\ frame (H s) (H s') /\ (forall x, In x (map snd l) -> nterm (hgot (H s') (sr x)) = 1%nat).
+Definition stop_closed (s : st) : Prop := forall k, p_stop (P s) k = true -> q_stop (P s) = true.
+Definition inflight_keys (s : st) : Prop := forall i kv, i < h_nreq (H s) ->
+  r_status (h_reqs (H s) i) = 0 -> In kv (pend (P s)) -> fst kv = r_key (h_reqs (H s) i) -> sr (snd kv) = i.
+
+(* what a step did to the references, seen from outside: no reference is lost silently,
+   results only grow, keys stay, the status only moves 0 -> 1 (accepted, queue open) / 0 -> 2,
+   and a new request record is referenced if it was accepted *)
+Definition EF (s s' : st) : Prop :=
+  h_nreq (H s) <= h_nreq (H s') /\
+  (forall sl, In sl (live s) -> In sl (live s') \/ nterm (hgot (H s') (sr sl)) <> 0%nat \/
+                              r_status (h_reqs (H s') (sr sl)) = 2) /\
+  (forall r, r < h_nreq (H s) -> nterm (hgot (H s') r) = 0%nat -> nterm (hgot (H s) r) = 0%nat) /\
+  (forall r, r < h_nreq (H s) -> r_key (h_reqs (H s') r) = r_key (h_reqs (H s) r) /\
+       (r_status (h_reqs (H s') r) = r_status (h_reqs (H s) r) \/
+        (r_status (h_reqs (H s) r) = 0 /\
+         (r_status (h_reqs (H s') r) = 2 \/ (r_status (h_reqs (H s') r) = 1 /\ q_stop (P s) = false))))) /\
+  (forall r, h_nreq (H s) <= r -> r < h_nreq (H s') ->
+       (r_status (h_reqs (H s') r) = 1 -> In r (map sr (live s'))) /\
+       (r_status (h_reqs (H s') r) = 0 -> In r (map sr (live s')) \/ q_stop (P s') = true)).
+Definition LX (s s' : st) : Prop := LI s' /\ EF s s'.
+
+Lemma EF_refl : forall s, EF s s.
 Proof.
-  intros s s' l drop Li He Hf Hp Hh Hk Hc.
-  assert (Hok : Forall (ok_slot (H s)) (map snd l ++ drop ++ live s')).
+  intros s. unfold EF. split; [lia|]. split; [auto|]. split; [auto|]. split; [auto|]. intros r A B. lia.
+Qed.
+Lemma LX_refl : forall s, LI s -> LX s s.
+Proof. intros s Li. split; [exact Li | apply EF_refl]. Qed.
+(* EF only looks at the heap, the live list and q_stop of either state *)
+Lemma EF_ext : forall s1 s1' s2 s2', H s2 = H s1 -> live s2 = live s1 -> q_stop (P s2) = q_stop (P s1) ->
+  H s2' = H s1' -> live s2' = live s1' -> q_stop (P s2') = q_stop (P s1') -> EF s1 s1' -> EF s2 s2'.
+Proof. intros s1 s1' s2 s2' A B C D E F. unfold EF. rewrite A, B, C, D, E, F. auto. Qed.
+
+(* the step notified [map snd l] and kept every other reference *)
+Lemma LX_finish : forall s s' l, LI s -> h_err (H s) = 0 ->
+  Forall (fun t => terminal (snd (fst t))) l ->
+  Permutation (live s) (map snd l ++ live s') ->
+  H s' = nseq l (H s) -> NoDup (map fst (pend (P s'))) -> cm_b (P s') = None ->
+  LX s s' /\ frame (H s) (H s') /\ (forall x, In x (map snd l) -> nterm (hgot (H s') (sr x)) = 1%nat).
+Proof.
+  intros s s' l Li He Hf Hp Hh Hk Hc.
+  assert (Hok : Forall (ok_slot (H s)) (map snd l ++ live s')).
   { eapply Permutation_Forall; [exact Hp | apply Li]. }
-  assert (Hnd : NoDup (map sr (map snd l ++ drop ++ live s'))).
+  assert (Hnd : NoDup (map sr (map snd l ++ live s'))).
   { eapply Permutation_NoDup; [apply Permutation_map; exact Hp | apply Li]. }
-  destruct (finish_seq l (drop ++ live s') (H s) (li_h s Li) He Hf Hok Hnd) as (Hi' & Hfr & Hok' & Hone & _).
-  rewrite <- Hh in *. split; [|split; [exact Hfr | exact Hone]]. constructor; auto.
-  - apply Forall_app in Hok'. apply Hok'.
-  - rewrite !map_app in Hnd. apply NoDup_app_r in Hnd. apply NoDup_app_r in Hnd. exact Hnd.
+  destruct (finish_seq l (live s') (H s) (li_h s Li) He Hf Hok Hnd) as (Hi' & Hfr & Hok' & Hone & Hsame).
+  rewrite <- Hh in *. split; [|split; [exact Hfr | exact Hone]]. split.
+  - constructor; auto. rewrite !map_app in Hnd. apply NoDup_app_r in Hnd. exact Hnd.
+  - destruct Hfr as (_ & _ & _ & Hnq & _ & _ & Hst & _). unfold EF. rewrite Hnq.
+    split; [lia|]. split; [|split; [|split]].
+    + intros sl Hsl. apply (Permutation_in _ Hp) in Hsl. apply in_app_or in Hsl. destruct Hsl as [Hsl|Hsl]; [|auto].
+      right. left. rewrite (Hone sl Hsl). discriminate.
+    + intros r Hr Hn. destruct (in_dec N.eq_dec r (map sr (map snd l))) as [Hin|Hnin].
+      * apply in_map_iff in Hin. destruct Hin as (x & <- & Hx). rewrite (Hone x Hx) in Hn. discriminate.
+      * unfold hgot in *. rewrite (Hsame r Hnin) in Hn. exact Hn.
+    + intros r Hr. destruct (Hst r) as (S1 & _ & S3). auto.
+    + intros r A B. lia.
 Qed.
 
 Lemma perm_filter_split : forall A (p : A -> bool) l,
@@ -588,12 +632,15 @@ Proof.
 Qed.
 
 Lemma LI_same_heap : forall s s', LI s -> H s' = H s -> Permutation (live s) (live s') ->
-  NoDup (map fst (pend (P s'))) -> cm_b (P s') = None -> LI s'.
+  NoDup (map fst (pend (P s'))) -> cm_b (P s') = None -> LX s s'.
 Proof.
-  intros s s' Li Hh Hp Hk Hc. constructor; auto; rewrite ?Hh.
-  - apply Li.
-  - eapply Permutation_Forall; [exact Hp | apply Li].
-  - eapply Permutation_NoDup; [apply Permutation_map; exact Hp | apply Li].
+  intros s s' Li Hh Hp Hk Hc. split.
+  - constructor; auto; rewrite ?Hh.
+    + apply Li.
+    + eapply Permutation_Forall; [exact Hp | apply Li].
+    + eapply Permutation_NoDup; [apply Permutation_map; exact Hp | apply Li].
+  - unfold EF. rewrite Hh. split; [lia|]. split; [|split; [auto|split; [auto|intros r A B; lia]]].
+    intros sl Hsl. left. apply (Permutation_in _ Hp). exact Hsl.
 Qed.
 Lemma LI_drop : forall s s' drop, LI s -> H s' = H s -> Permutation (live s) (drop ++ live s') ->
   NoDup (map fst (pend (P s'))) -> cm_b (P s') = None -> LI s'.
@@ -611,16 +658,32 @@ Lemma LI_heap : forall s s' news, LI s -> HI (H s') ->
   Forall (ok_slot (H s')) news -> NoDup (map sr news) ->
   (forall y, In y news -> h_nreq (H s) <= sr y) ->
   Permutation (live s') (news ++ live s) ->
-  NoDup (map fst (pend (P s'))) -> cm_b (P s') = None -> LI s'.
+  NoDup (map fst (pend (P s'))) -> cm_b (P s') = None ->
+  h_nreq (H s') = h_nreq (H s) + 1 ->
+  (forall r, r <> h_nreq (H s) -> hgot (H s') r = hgot (H s) r /\ r_status (h_reqs (H s') r) = r_status (h_reqs (H s) r) /\
+                                   r_kind (h_reqs (H s') r) = r_kind (h_reqs (H s) r) /\ r_key (h_reqs (H s') r) = r_key (h_reqs (H s) r)) ->
+  (r_status (h_reqs (H s') (h_nreq (H s))) = 1 -> In (h_nreq (H s)) (map sr news)) ->
+  (r_status (h_reqs (H s') (h_nreq (H s))) = 0 -> In (h_nreq (H s)) (map sr news) \/ q_stop (P s') = true) ->
+  LX s s'.
 Proof.
-  intros s s' news Li Hi Hold Hnew Hnn Hfresh Hp Hk Hc. constructor; auto.
-  - eapply Permutation_Forall; [symmetry; exact Hp|]. apply Forall_app. split; [exact Hnew|].
-    eapply Forall_impl; [|apply Li]. exact Hold.
-  - eapply Permutation_NoDup; [apply Permutation_map; symmetry; exact Hp|]. rewrite map_app.
-    apply NoDup_app_intro; [exact Hnn | apply Li |].
-    intros r Hr1 Hr2. apply in_map_iff in Hr1. destruct Hr1 as (y & <- & Hy). apply Hfresh in Hy.
-    apply in_map_iff in Hr2. destruct Hr2 as (z & Ez & Hz).
-    pose proof (li_ok s Li) as Hok. rewrite Forall_forall in Hok. destruct (Hok z Hz) as (A & _). lia.
+  intros s s' news Li Hi Hold Hnew Hnn Hfresh Hp Hk Hc Hnq Hrq Hn1 Hn0. split.
+  - constructor; auto.
+    + eapply Permutation_Forall; [symmetry; exact Hp|]. apply Forall_app. split; [exact Hnew|].
+      eapply Forall_impl; [|apply Li]. exact Hold.
+    + eapply Permutation_NoDup; [apply Permutation_map; symmetry; exact Hp|]. rewrite map_app.
+      apply NoDup_app_intro; [exact Hnn | apply Li |].
+      intros r Hr1 Hr2. apply in_map_iff in Hr1. destruct Hr1 as (y & <- & Hy). apply Hfresh in Hy.
+      apply in_map_iff in Hr2. destruct Hr2 as (z & Ez & Hz).
+      pose proof (li_ok s Li) as Hok. rewrite Forall_forall in Hok. destruct (Hok z Hz) as (A & _). lia.
+  - assert (Hin : forall r, In r (map sr news) -> In r (map sr (live s'))).
+    { intros r Hr. apply (Permutation_in _ (Permutation_map sr (Permutation_sym Hp))). rewrite map_app. apply in_or_app. auto. }
+    unfold EF. rewrite Hnq. split; [lia|]. split; [|split; [|split]].
+    + intros sl Hsl. left. apply (Permutation_in _ (Permutation_sym Hp)). apply in_or_app. auto.
+    + intros r Hr Hn. destruct (Hrq r ltac:(lia)) as (G & _). rewrite G in Hn. exact Hn.
+    + intros r Hr. destruct (Hrq r ltac:(lia)) as (_ & S1 & _ & S3). auto.
+    + intros r A B. assert (r = h_nreq (H s)) as -> by lia. split; intros Hs.
+      * apply Hin. apply Hn1. exact Hs.
+      * destruct (Hn0 Hs) as [X|X]; [left; apply Hin; exact X | right; exact X].
 Qed.
 
 Lemma filter_implies : forall A (p q : A -> bool) l, (forall x, p x = true -> q x = true) ->
@@ -652,15 +715,15 @@ Proof.
 Qed.
 
 Lemma gc_at_LI : forall s k now, LI s -> h_err (H s) = 0 ->
-  LI (gc_at s k now) /\ frame (H s) (H (gc_at s k now)).
+  LX s (gc_at s k now) /\ frame (H s) (H (gc_at s k now)).
 Proof.
   intros s k now Li He. unfold gc_at.
-  destruct (p_stop (P s) k) eqn:Est; [split; [exact Li | apply frame_refl; exact He]|].
-  destruct (sub64 now (p_lastgc (P s) k) <? gc_tick); [split; [exact Li | apply frame_refl; exact He]|].
+  destruct (p_stop (P s) k) eqn:Est; [split; [apply (LX_refl _ Li) | apply frame_refl; exact He]|].
+  destruct (sub64 now (p_lastgc (P s) k) <? gc_tick); [split; [apply (LX_refl _ Li) | apply frame_refl; exact He]|].
   cut (forall X Y Z : Prop, X /\ Y /\ Z -> X /\ Y); [intros Hcut; eapply Hcut | tauto].
   set (expired := fun kv : N * slot => (fst kv mod cps s =? k) && (o_dl (h_objs (H s) (so (snd kv))) <? now)).
   set (sc := fun o : obj => SGc now (o_dl o)). set (f := fun _ : obj => mkRes cTimeout 0 0).
-  apply (LI_finish s _ (map (fun x => (sc, f, x)) (map snd (filter expired (pend (P s))))) [] Li He).
+  apply (LX_finish s _ (map (fun x => (sc, f, x)) (map snd (filter expired (pend (P s))))) Li He).
   - apply Forall_triples. apply terminal_const. reflexivity.
   - rewrite map_snd_triples. cbn [app]. unfold live. apply perm_head with (d := []). cbn [app].
     apply (pend_split s expired). intros kv Hk. unfold expired in Hk. apply andb_true_iff in Hk. destruct Hk as [Hk _].
@@ -673,13 +736,24 @@ Qed.
 Lemma LI_weaken : forall s s' drop, LI s -> HI (H s') ->
   (forall y, ok_slot (H s) y -> ok_slot (H s') y) ->
   Permutation (live s) (drop ++ live s') ->
-  NoDup (map fst (pend (P s'))) -> cm_b (P s') = None -> LI s'.
+  NoDup (map fst (pend (P s'))) -> cm_b (P s') = None ->
+  h_nreq (H s') = h_nreq (H s) ->
+  (forall r, nterm (hgot (H s') r) = 0%nat -> nterm (hgot (H s) r) = 0%nat) ->
+  (forall r, r_key (h_reqs (H s') r) = r_key (h_reqs (H s) r) /\
+       (r_status (h_reqs (H s') r) = r_status (h_reqs (H s) r) \/
+        (r_status (h_reqs (H s) r) = 0 /\
+         (r_status (h_reqs (H s') r) = 2 \/ (r_status (h_reqs (H s') r) = 1 /\ q_stop (P s) = false))))) ->
+  (forall y, In y drop -> r_status (h_reqs (H s') (sr y)) = 2) ->
+  LX s s'.
 Proof.
-  intros s s' drop Li Hi Hold Hp Hk Hc. constructor; auto.
-  - pose proof (Permutation_Forall Hp (li_ok s Li)) as Hf. apply Forall_app in Hf. destruct Hf as [_ Hf].
-    eapply Forall_impl; [|exact Hf]. exact Hold.
-  - pose proof (Permutation_NoDup (Permutation_map sr Hp) (li_nd s Li)) as Hn. rewrite map_app in Hn.
-    apply NoDup_app_r in Hn. exact Hn.
+  intros s s' drop Li Hi Hold Hp Hk Hc Hnq Hg Hst Hdrop. split.
+  - constructor; auto.
+    + pose proof (Permutation_Forall Hp (li_ok s Li)) as Hf. apply Forall_app in Hf. destruct Hf as [_ Hf].
+      eapply Forall_impl; [|exact Hf]. exact Hold.
+    + pose proof (Permutation_NoDup (Permutation_map sr Hp) (li_nd s Li)) as Hn. rewrite map_app in Hn.
+      apply NoDup_app_r in Hn. exact Hn.
+  - unfold EF. rewrite Hnq. split; [lia|]. split; [|split; [auto|split; [auto|intros r A B; lia]]].
+    intros sl Hsl. apply (Permutation_in _ Hp) in Hsl. apply in_app_or in Hsl. destruct Hsl as [Hsl|Hsl]; auto.
 Qed.
 
 Lemma HI_updR_same : forall h r f,
@@ -811,10 +885,10 @@ Lemma LI_notify_pend : forall s s' sc r key sl, LI s -> h_err (H s) = 0 ->
   filter (fun kv => fst kv =? key) (pend (P s)) = [(key, sl)] ->
   H s' = notify sc r (H s) sl ->
   live s' = map snd (filter (alive s) (remove_key key (pend (P s)))) ++ live_reads s ++ olist (x_pend (C s)) ++ olist (x_pend (S s)) ++ olist (lq_pend s) ->
-  NoDup (map fst (pend (P s'))) -> cm_b (P s') = None -> LI s'.
+  NoDup (map fst (pend (P s'))) -> cm_b (P s') = None -> LX s s'.
 Proof.
   intros s s' sc r key sl Li He Hr Est Hf Hh Hl Hk Hc.
-  apply (LI_finish s s' [(fun _ => sc, fun _ => r, sl)] [] Li He); auto.
+  apply (LX_finish s s' [(fun _ => sc, fun _ => r, sl)] Li He); auto.
   - constructor; [|constructor]. intros o. exact Hr.
   - cbn [map snd app]. rewrite Hl. unfold live. apply (perm_head _ (live_pend s) _ _ [sl] []).
     apply (pend_remove_key s key sl Est Hf).
@@ -857,20 +931,20 @@ Qed.
 Lemma LI_x_notify : forall s s' sc f sl (a b : list slot), LI s -> h_err (H s) = 0 -> terminal f ->
   live s = a ++ [sl] ++ b -> live s' = a ++ b ->
   H s' = notifyf sc f (H s) sl ->
-  NoDup (map fst (pend (P s'))) -> cm_b (P s') = None -> LI s'.
+  NoDup (map fst (pend (P s'))) -> cm_b (P s') = None -> LX s s'.
 Proof.
   intros s s' sc f sl a b Li He Hf Hl Hl' Hh Hk Hc.
-  apply (LI_finish s s' [(sc, f, sl)] [] Li He); auto.
+  apply (LX_finish s s' [(sc, f, sl)] Li He); auto.
   cbn [map snd app]. rewrite Hl, Hl'. cbn [app]. apply Permutation_sym. apply Permutation_middle.
 Qed.
 
 Ltac same_live Li := apply (LI_same_heap _ _ Li); [reflexivity | apply Permutation_refl | apply Li | apply Li].
 
 Lemma x_gc_LI_C : forall s, LI s -> h_err (H s) = 0 ->
-  LI (let '(h1, x) := x_gc (H s) (C s) in setHC s h1 x).
+  LX s (let '(h1, x) := x_gc (H s) (C s) in setHC s h1 x).
 Proof.
   intros s Li He. unfold x_gc. destruct (x_pend (C s)) as [sl|] eqn:Ex.
-  - destruct (sub64 _ _ <? gc_tick); [destruct s, C; cbn in *; subst; exact Li|].
+  - destruct (sub64 _ _ <? gc_tick); [destruct s, C; cbn in *; subst; apply (LX_refl _ Li)|].
     destruct (o_dl _ <? _).
     + eapply (LI_x_notify s _ (fun o => SGc (h_clock (H s)) (o_dl o)) (fun _ => mkRes cTimeout 0 0) sl (live_pend s ++ live_reads s) (olist (x_pend (S s)) ++ olist (lq_pend s)) Li He).
       * apply terminal_const. reflexivity.
@@ -881,13 +955,13 @@ Proof.
       * apply Li.
     + apply (LI_same_heap _ _ Li); [reflexivity | | apply Li | apply Li].
       unfold live. cbn. rewrite Ex. apply Permutation_refl.
-  - destruct s, C; cbn in *; subst; exact Li.
+  - destruct s, C; cbn in *; subst; apply (LX_refl _ Li).
 Qed.
 Lemma x_gc_LI_S : forall s, LI s -> h_err (H s) = 0 ->
-  LI (let '(h1, x) := x_gc (H s) (S s) in setHS s h1 x).
+  LX s (let '(h1, x) := x_gc (H s) (S s) in setHS s h1 x).
 Proof.
   intros s Li He. unfold x_gc. destruct (x_pend (S s)) as [sl|] eqn:Ex.
-  - destruct (sub64 _ _ <? gc_tick); [destruct s, S; cbn in *; subst; exact Li|].
+  - destruct (sub64 _ _ <? gc_tick); [destruct s, S; cbn in *; subst; apply (LX_refl _ Li)|].
     destruct (o_dl _ <? _).
     + eapply (LI_x_notify s _ (fun o => SGc (h_clock (H s)) (o_dl o)) (fun _ => mkRes cTimeout 0 0) sl (live_pend s ++ live_reads s ++ olist (x_pend (C s))) (olist (lq_pend s)) Li He).
       * apply terminal_const. reflexivity.
@@ -898,7 +972,7 @@ Proof.
       * apply Li.
     + apply (LI_same_heap _ _ Li); [reflexivity | | apply Li | apply Li].
       unfold live. cbn. rewrite Ex. apply Permutation_refl.
-  - destruct s, S; cbn in *; subst; exact Li.
+  - destruct s, S; cbn in *; subst; apply (LX_refl _ Li).
 Qed.
 
 Lemma broken_notifyf : forall sc f h x, h_broken (notifyf sc f h x) = h_broken h.
@@ -916,7 +990,7 @@ Proof.
 Qed.
 
 Lemma closeP_LI : forall s k0, LI s -> h_err (H s) = 0 ->
-  h_broken (H (step0 s (CloseP k0))) = false -> LI (step0 s (CloseP k0)).
+  h_broken (H (step0 s (CloseP k0))) = false -> LX s (step0 s (CloseP k0)).
 Proof.
   intros s k0 Li He. cbn [step0]. set (k := k0 mod cps s).
   set (inK := fun kv : N * slot => fst kv mod cps s =? k).
@@ -926,7 +1000,7 @@ Proof.
   destruct (p_stop (P s) k) eqn:Est.
   - cbn [H setHP]. rewrite broken_notifyf_all. cbn. discriminate.
   - intros _.
-    apply (LI_finish s _ (map (fun x => (fun _ : obj => SClose, fun _ : obj => terminated, x)) (map snd (filter inK (pend (P s))))) [] Li He).
+    apply (LX_finish s _ (map (fun x => (fun _ : obj => SClose, fun _ : obj => terminated, x)) (map snd (filter inK (pend (P s))))) Li He).
     + apply Forall_triples. apply terminal_const. reflexivity.
     + rewrite map_snd_triples. unfold live. apply (perm_head _ (live_pend s) _ _ _ []). cbn [app].
       etransitivity; [apply (pend_split s inK)|].
@@ -943,7 +1017,7 @@ Proof.
 Qed.
 
 Lemma closeR_LI : forall s, LI s -> h_err (H s) = 0 ->
-  h_broken (H (step0 s CloseR)) = false -> LI (step0 s CloseR).
+  h_broken (H (step0 s CloseR)) = false -> LX s (step0 s CloseR).
 Proof.
   intros s Li He. cbn [step0]. unfold notify_all, notify.
   fold (notifyf_all (fun _ => SClose) (fun _ => terminated) (if rd_stop (R s) then set_broken (H s) else H s) (rq (R s))).
@@ -952,7 +1026,7 @@ Proof.
   destruct (rd_stop (R s)) eqn:Est.
   - cbn [H setHR]. rewrite !broken_notifyf_all. cbn. discriminate.
   - intros _. set (tr := fun x : slot => (fun _ : obj => SClose, fun _ : obj => terminated, x)).
-    apply (LI_finish s _ (map tr (rq (R s)) ++ map tr (batch_slots (batches (R s)))) [] Li He).
+    apply (LX_finish s _ (map tr (rq (R s)) ++ map tr (batch_slots (batches (R s)))) Li He).
     + apply Forall_app. split; apply Forall_triples; apply terminal_const; reflexivity.
     + rewrite map_app. unfold tr. rewrite !map_snd_triples. unfold live, live_reads.
       cbn [R setHR r_closed rq taken batches rd_stop P C S lq_pend]. rewrite Est.
@@ -985,11 +1059,11 @@ Proof.
   apply in_map_iff in Ht. destruct Ht as (x & <- & _). exact Hf.
 Qed.
 
-Lemma readsApplied_LI : forall s a, LI s -> h_err (H s) = 0 -> LI (reads_applied s a).
+Lemma readsApplied_LI : forall s a, LI s -> h_err (H s) = 0 -> LX s (reads_applied s a).
 Proof.
   intros s a Li He. unfold reads_applied.
-  destruct (rd_stop (R s)) eqn:Est; [exact Li|]. cbn [orb].
-  destruct (batches (R s)) as [|b0 bs0] eqn:Eb; [exact Li|]. rewrite <- Eb. clear Eb b0 bs0.
+  destruct (rd_stop (R s)) eqn:Est; [apply (LX_refl _ Li)|]. cbn [orb].
+  destruct (batches (R s)) as [|b0 bs0] eqn:Eb; [apply (LX_refl _ Li)|]. rewrite <- Eb. clear Eb b0 bs0.
   set (now := h_clock (H s)).
   set (ready := fun b : (N * N) * (N * list slot) => (0 <? fst (snd b)) && (fst (snd b) <=? a)).
   set (scb := fun (b : (N * N) * (N * list slot)) (o : obj) => SReadApplied a (fst (snd b)) now (o_dl o)).
@@ -1003,7 +1077,7 @@ Proof.
   assert (Hp1 : Permutation (batch_slots (batches (R s))) (map snd L1 ++ batch_slots bs1)).
   { unfold L1. rewrite map_snd_flat_triples. apply (batch_split ready). }
   destruct (sub64 now (rd_lastgc (R s)) <? gc_tick).
-  - apply (LI_finish s _ L1 [] Li He).
+  - apply (LX_finish s _ L1 Li He).
     + apply Forall_flat_triples. exact Hfr.
     + unfold live, live_reads. cbn [R setHR r_set_b rq taken batches rd_stop P C S lq_pend]. rewrite Est.
       change (live_pend (setHR s _ _)) with (live_pend s).
@@ -1016,7 +1090,7 @@ Proof.
     set (gsc := fun o : obj => SGc now (o_dl o)). set (gf := fun _ : obj => mkRes cTimeout 0 0).
     set (keepb := fun b : (N * N) * (N * list slot) =>
                     negb ((snd (fst b) <? now) && match snd (snd b) with [] => true | _ => false end)).
-    apply (LI_finish s _ (L1 ++ map (fun x => (gsc, gf, x)) (filter expired (batch_slots bs1))) [] Li He).
+    apply (LX_finish s _ (L1 ++ map (fun x => (gsc, gf, x)) (filter expired (batch_slots bs1))) Li He).
     + apply Forall_app. split; [apply Forall_flat_triples; exact Hfr | apply Forall_triples; apply terminal_const; reflexivity].
     + rewrite map_app, map_snd_triples.
       unfold live, live_reads. cbn [R setHR r_set_bg rq taken batches rd_stop P C S lq_pend]. rewrite Est.
@@ -1038,18 +1112,38 @@ Proof. intros h x key sl. unfold x_match. destruct (x_pend x); [|discriminate]. 
 Lemma alive_setHP : forall s h p kv, p_stop p = p_stop (P s) -> alive (setHP s h p) kv = alive s kv.
 Proof. intros s h p kv E. unfold alive. cbn. rewrite E. reflexivity. Qed.
 
-Lemma step0_LI : forall s o, LI s -> h_err (H s) = 0 ->
-  h_err (H (step0 s o)) = 0 -> h_broken (H (step0 s o)) = false -> LI (step0 s o).
+Lemma notify_commit_nterm : forall h x r, nterm (hgot (notify_commit h x) r) = nterm (hgot h r).
 Proof.
-  intros s o Li He. destruct o; cbn [step0].
+  intros h x r. unfold notify_commit.
+  destruct (negb (h_err h =? 0)); [auto|].
+  destruct (negb (o_nc _)); [reflexivity|]. destruct (negb (o_hascomm _)); [reflexivity|].
+  destruct (o_comm _); [|reflexivity].
+  assert (Hr : forall h0, h_reqs h0 = h_reqs h ->
+     nterm (hgot (updR (updO h0 (so x) (fun o0 => o_committed o0 (mkRes cCommitted 0 0))) (o_owner (h_objs h (so x)))
+              (fun q => r_add_got q (mkEv (mkRes cCommitted 0 0) (sr x) SCommit))) r) = nterm (hgot h r)).
+  { intros h0 E0. unfold hgot. cbn. rewrite E0. destruct (r =? o_owner (h_objs h (so x))) eqn:E; [|reflexivity].
+    apply N.eqb_eq in E. subst r. cbn. unfold nterm. rewrite filter_app, app_length. cbn. lia. }
+  destruct (has_committed _); apply Hr; reflexivity.
+Qed.
+
+Lemma proposeB_outcome_open : forall s, proposeB_outcome s = 0 -> q_stop (P s) = false.
+Proof.
+  intros s. unfold proposeB_outcome. destruct (q_paused (P s) || _); destruct (q_stop (P s)); intros X; try discriminate X; reflexivity.
+Qed.
+
+Lemma step0_LI : forall s o, LI s -> stop_closed s -> inflight_keys s -> h_err (H s) = 0 ->
+  h_err (H (step0 s o)) = 0 -> h_broken (H (step0 s o)) = false -> LX s (step0 s o).
+Proof.
+  intros s o Li Hsc Hif He. destruct o; cbn [step0].
   - (* ProposeA *)
-    destruct (to =? 0); [intros; exact Li|].
+    destruct (to =? 0); [intros; apply (LX_refl _ Li)|].
     pose proof (alloc_ok pick (cnc s) key cid sid (add64 (h_clock (H s)) to) (H s)) as Ha.
     destruct (get_obj pick (cnc s) (h_nreq (H s)) key cid sid (add64 (h_clock (H s)) to) (H s)) as [h1 ob] eqn:Eg.
     cbn [fst snd] in Ha.
     specialize (Ha (mkReq 0 ob key cid sid (add64 (h_clock (H s)) to) (cnc s) 0 false [] [] []) (li_h s Li) eq_refl eq_refl eq_refl).
-    destruct Ha as (Hi' & Hnew & Hold & _).
+    destruct Ha as (Hi' & Hnew & Hold & _ & _ & _ & Hnq & Hq & Hrq & _).
     destruct (find_key key (pend (P s))) eqn:Ef; [cbn; intros _ Hb; discriminate|].
+    destruct (key_in_flight (H s) key) eqn:Ekf; [cbn; intros _ Hb; discriminate|].
     intros _ _. rewrite (find_key_none _ _ Ef).
     set (new := mkSlot ob (h_nreq (H s))).
     apply (LI_heap s _ (if alive s (key, new) then [new] else []) Li); cbn [H setHP P p_set_pend pend cm_b]; auto.
@@ -1061,14 +1155,23 @@ Proof.
       destruct (alive s (key, new)); cbn [map app]; apply Permutation_refl.
     + cbn. constructor; [apply find_key_none_notin; exact Ef | apply Li].
     + apply Li.
+    + rewrite Hq. cbn. discriminate.
+    + intros _. destruct (alive s (key, new)) eqn:Ea; [left; cbn; auto|]. right.
+      unfold alive in Ea. cbn in Ea. apply negb_false_iff in Ea. apply (Hsc _ Ea).
   - (* ProposeB *)
-    destruct (_ && _); [|intros; exact Li].
-    destruct (proposeB_outcome s =? 0); intros _ _.
-    + destruct (HI_updR_same (H s) i (fun q => r_set_status q 1) ltac:(intros; cbn; auto) (li_h s Li)) as [Hi' Hold].
-      apply (LI_weaken s _ [] Li); [exact Hi' | exact Hold | apply Permutation_refl | apply Li | apply Li].
+    destruct (_ && _) eqn:Ec; [|intros; apply (LX_refl _ Li)].
+    apply andb_true_iff in Ec. destruct Ec as [Ec Es0]. apply andb_true_iff in Ec. destruct Ec as [Elt _].
+    apply N.ltb_lt in Elt. apply N.eqb_eq in Es0.
+    destruct (proposeB_outcome s =? 0) eqn:Eo; intros _ _.
+    + apply N.eqb_eq in Eo. apply proposeB_outcome_open in Eo.
+      destruct (HI_updR_same (H s) i (fun q => r_set_status q 1) ltac:(intros; cbn; auto) (li_h s Li)) as [Hi' Hold].
+      apply (LI_weaken s _ [] Li); [exact Hi' | exact Hold | apply Permutation_refl | apply Li | apply Li | reflexivity | | | intros y []].
+      * intros r. cbn [H setHP]. rewrite hgot_updR. destruct (r =? i) eqn:E; [apply N.eqb_eq in E; subst r; cbn|]; auto.
+      * intros r. cbn [H setHP updR set_reqs h_reqs]. destruct (r =? i) eqn:E; [apply N.eqb_eq in E; subst r; cbn|]; auto.
+        split; [reflexivity|]. right. split; [exact Es0|]. right. auto.
     + destruct (HI_updR_same (H s) i (fun q => r_set_status q 2) ltac:(intros; cbn; auto) (li_h s Li)) as [Hi' Hold].
       set (key := r_key (h_reqs (H s) i)).
-      apply (LI_weaken s _ (map snd (filter (alive s) (filter (fun kv => fst kv =? key) (pend (P s))))) Li); [exact Hi' | exact Hold | | |].
+      apply (LI_weaken s _ (map snd (filter (alive s) (filter (fun kv => fst kv =? key) (pend (P s))))) Li); [exact Hi' | exact Hold | | | | reflexivity | | | ].
       * unfold live. apply (perm_head _ (live_pend s) _ _ [] _).
         change (Permutation (map snd (filter (alive s) (pend (P s))))
                   ([] ++ map snd (filter (alive s) (filter (fun kv => fst kv =? key) (pend (P s)))) ++
@@ -1078,14 +1181,19 @@ Proof.
         apply (perm_filter_split _ (fun kv => fst kv =? key)).
       * cbn. apply NoDup_remove_key. apply Li.
       * apply Li.
+      * intros r. cbn [H setHP]. rewrite hgot_updR. destruct (r =? i) eqn:E; [apply N.eqb_eq in E; subst r; cbn|]; auto.
+      * intros r. cbn [H setHP updR set_reqs h_reqs]. destruct (r =? i) eqn:E; [apply N.eqb_eq in E; subst r; cbn|]; auto.
+      * intros y Hy. apply in_map_iff in Hy. destruct Hy as (kv & <- & Hkv). apply filter_In in Hkv. destruct Hkv as [Hkv _].
+        apply filter_In in Hkv. destruct Hkv as [Hkv Hk]. apply N.eqb_eq in Hk.
+        rewrite (Hif i kv Elt Es0 Hkv Hk). cbn [H setHP updR set_reqs h_reqs]. rewrite N.eqb_refl. reflexivity.
   - (* Read *)
-    destruct (to =? 0); [intros; exact Li|].
+    destruct (to =? 0); [intros; apply (LX_refl _ Li)|].
     pose proof (alloc_ok pick false 0 0 0 (add64 (h_clock (H s)) to) (H s)) as Ha.
     destruct (get_obj pick false (h_nreq (H s)) 0 0 0 (add64 (h_clock (H s)) to) (H s)) as [h1 ob] eqn:Eg.
     cbn [fst snd] in Ha. intros _ _.
     destruct (read_outcome s to =? 0).
     + specialize (Ha (mkReq 1 ob 0 0 0 (add64 (h_clock (H s)) to) false 1 false [] [] []) (li_h s Li) eq_refl eq_refl eq_refl).
-      destruct Ha as (Hi' & Hnew & Hold & _).
+      destruct Ha as (Hi' & Hnew & Hold & _ & _ & _ & Hnq & Hq & Hrq & _).
       apply (LI_heap s _ [mkSlot ob (h_nreq (H s))] Li); cbn [H setHR]; auto.
       * cbn. constructor; [intros [] | constructor].
       * intros y [<-|[]]. cbn. lia.
@@ -1095,17 +1203,20 @@ Proof.
         etransitivity; [|apply Permutation_app_head; apply Permutation_middle]. apply Permutation_middle.
       * apply Li.
       * apply Li.
+      * intros _. cbn. auto.
+      * rewrite Hq. cbn. discriminate.
     + specialize (Ha (mkReq 1 ob 0 0 0 (add64 (h_clock (H s)) to) false 2 false [] [] []) (li_h s Li) eq_refl eq_refl eq_refl).
-      destruct Ha as (Hi' & Hnew & Hold & _).
-      apply (LI_heap s _ [] Li); cbn [H setH]; auto; try constructor; try apply Li; try (intros y []).
+      destruct Ha as (Hi' & Hnew & Hold & _ & _ & _ & Hnq & Hq & Hrq & _).
+      apply (LI_heap s _ [] Li); cbn [H setH]; auto; try solve [constructor]; try solve [apply Li]; try solve [intros y []];
+        try solve [apply Permutation_refl]; try solve [rewrite Hq; cbn; discriminate].
   - (* ReqCC *)
-    unfold x_request. destruct (x_outcome (C s) to =? 0) eqn:Eo; [|intros; destruct s; exact Li].
+    unfold x_request. destruct (x_outcome (C s) to =? 0) eqn:Eo; [|intros; destruct s; apply (LX_refl _ Li)].
     rewrite new_obj_eq.
     pose proof (alloc_ok (N.of_nat (length (h_pool (H s)))) (cnc s) key 0 0 (add64 (h_clock (H s)) to) (H s)) as Ha.
     destruct (get_obj _ (cnc s) (h_nreq (H s)) key 0 0 (add64 (h_clock (H s)) to) (H s)) as [h1 ob] eqn:Eg.
     cbn [fst snd] in Ha. intros _ _.
     specialize (Ha (mkReq 2 ob key 0 0 (add64 (h_clock (H s)) to) (cnc s) 1 false [] [] []) (li_h s Li) eq_refl eq_refl eq_refl).
-    destruct Ha as (Hi' & Hnew & Hold & _).
+    destruct Ha as (Hi' & Hnew & Hold & _ & _ & _ & Hnq & Hq & Hrq & _).
     assert (Ex : x_pend (C s) = None).
     { unfold x_outcome in Eo. destruct (to =? 0); [discriminate|]. destruct (x_pend (C s)); [discriminate | reflexivity]. }
     apply (LI_heap s _ [mkSlot ob (h_nreq (H s))] Li); cbn [H setHC]; auto.
@@ -1116,14 +1227,16 @@ Proof.
       apply Permutation_sym. rewrite !app_assoc. apply Permutation_cons_app. rewrite <- !app_assoc. apply Permutation_refl.
     + apply Li.
     + apply Li.
+    + intros _. cbn. auto.
+    + rewrite Hq. cbn. discriminate.
   - (* ReqSS *)
-    unfold x_request. destruct (x_outcome (S s) to =? 0) eqn:Eo; [|intros; destruct s; exact Li].
+    unfold x_request. destruct (x_outcome (S s) to =? 0) eqn:Eo; [|intros; destruct s; apply (LX_refl _ Li)].
     rewrite new_obj_eq.
     pose proof (alloc_ok (N.of_nat (length (h_pool (H s)))) false key 0 0 (add64 (h_clock (H s)) to) (H s)) as Ha.
     destruct (get_obj _ false (h_nreq (H s)) key 0 0 (add64 (h_clock (H s)) to) (H s)) as [h1 ob] eqn:Eg.
     cbn [fst snd] in Ha. intros _ _.
     specialize (Ha (mkReq 3 ob key 0 0 (add64 (h_clock (H s)) to) false 1 false [] [] []) (li_h s Li) eq_refl eq_refl eq_refl).
-    destruct Ha as (Hi' & Hnew & Hold & _).
+    destruct Ha as (Hi' & Hnew & Hold & _ & _ & _ & Hnq & Hq & Hrq & _).
     assert (Ex : x_pend (S s) = None).
     { unfold x_outcome in Eo. destruct (to =? 0); [discriminate|]. destruct (x_pend (S s)); [discriminate | reflexivity]. }
     apply (LI_heap s _ [mkSlot ob (h_nreq (H s))] Li); cbn [H setHS]; auto.
@@ -1134,14 +1247,16 @@ Proof.
       apply Permutation_sym. rewrite !app_assoc. apply Permutation_cons_app. rewrite <- !app_assoc. apply Permutation_refl.
     + apply Li.
     + apply Li.
+    + intros _. cbn. auto.
+    + rewrite Hq. cbn. discriminate.
   - (* ReqLQ *)
-    destruct (lq_outcome s =? 0) eqn:Eo; [|intros; exact Li].
+    destruct (lq_outcome s =? 0) eqn:Eo; [|intros; apply (LX_refl _ Li)].
     rewrite new_obj_eq.
     pose proof (alloc_ok (N.of_nat (length (h_pool (H s)))) false 0 0 0 0 (H s)) as Ha.
     destruct (get_obj _ false (h_nreq (H s)) 0 0 0 0 (H s)) as [h1 ob] eqn:Eg.
     cbn [fst snd] in Ha. intros _ _.
     specialize (Ha (mkReq 4 ob 0 0 0 0 false 1 false [] [] []) (li_h s Li) eq_refl eq_refl eq_refl).
-    destruct Ha as (Hi' & Hnew & Hold & _).
+    destruct Ha as (Hi' & Hnew & Hold & _ & _ & _ & Hnq & Hq & Hrq & _).
     assert (Ex : lq_pend s = None).
     { unfold lq_outcome in Eo. destruct (_ && _); [discriminate|]. destruct (lq_pend s); [discriminate | reflexivity]. }
     apply (LI_heap s _ [mkSlot ob (h_nreq (H s))] Li); cbn [H setHL]; auto.
@@ -1152,30 +1267,36 @@ Proof.
       rewrite !app_nil_r. apply Permutation_sym. rewrite !app_assoc. apply Permutation_cons_append.
     + apply Li.
     + apply Li.
+    + intros _. cbn. auto.
+    + rewrite Hq. cbn. discriminate.
   - (* Drain *)
-    destruct (_ && _); [|intros; exact Li]. intros _ _. destruct (_ =? i).
+    destruct (_ && _); [|intros; apply (LX_refl _ Li)]. intros _ _. destruct (_ =? i).
     + destruct (HI_drain (H s) (r_obj (h_reqs (H s) i)) (li_h s Li)) as [Hi' Hold].
-      apply (LI_weaken s _ [] Li); [exact Hi' | exact Hold | apply Permutation_refl | apply Li | apply Li].
+      apply (LI_weaken s _ [] Li); [exact Hi' | exact Hold | apply Permutation_refl | apply Li | apply Li | reflexivity | auto | auto | intros y []].
     + destruct (HI_updR_same (H s) i (fun q => r_set_left q [] []) ltac:(intros; cbn; auto) (li_h s Li)) as [Hi' Hold].
-      apply (LI_weaken s _ [] Li); [exact Hi' | exact Hold | apply Permutation_refl | apply Li | apply Li].
+      apply (LI_weaken s _ [] Li); [exact Hi' | exact Hold | apply Permutation_refl | apply Li | apply Li | reflexivity | | | intros y []].
+      * intros r. cbn [H setH]. rewrite hgot_updR. destruct (r =? i) eqn:E; [apply N.eqb_eq in E; subst r; cbn|]; auto.
+      * intros r. cbn [H setH updR set_reqs h_reqs]. destruct (r =? i) eqn:E; [apply N.eqb_eq in E; subst r; cbn|]; auto.
   - (* Release *)
-    destruct (_ && _) eqn:Ec; [|intros; exact Li]. intros _ _.
+    destruct (_ && _) eqn:Ec; [|intros; apply (LX_refl _ Li)]. intros _ _.
     apply andb_true_iff in Ec. destruct Ec as [Ec Ertr]. apply andb_true_iff in Ec. destruct Ec as [Ec Erel].
     apply andb_true_iff in Ec. destruct Ec as [Ec _]. apply andb_true_iff in Ec. destruct Ec as [Elt _].
     apply N.ltb_lt in Elt. apply negb_true_iff in Erel.
     destruct (HI_release (H s) i (li_h s Li) Elt Erel Ertr) as [Hi' Hold].
-    apply (LI_weaken s _ [] Li); [exact Hi' | exact Hold | apply Permutation_refl | apply Li | apply Li].
+    apply (LI_weaken s _ [] Li); [exact Hi' | exact Hold | apply Permutation_refl | apply Li | apply Li | reflexivity | | | intros y []].
+    + intros r. cbn [H setH]. unfold hgot. cbn. destruct (r =? i) eqn:E; [apply N.eqb_eq in E; subst r; cbn|]; auto.
+    + intros r. cbn [H setH]. cbn. destruct (r =? i) eqn:E; [apply N.eqb_eq in E; subst r; cbn|]; auto.
   - (* TakeProps *) intros _ _. same_live Li.
   - (* TakeReads *)
-    intros _ _. destruct (taken (R s)) eqn:Et; [|exact Li].
+    intros _ _. destruct (taken (R s)) eqn:Et; [|apply (LX_refl _ Li)].
     apply (LI_same_heap _ _ Li); [reflexivity | | apply Li | apply Li].
     unfold live, live_reads. cbn. rewrite Et. cbn. apply Permutation_refl.
   - (* AddReads *)
-    destruct (taken (R s)) as [|t0 tk] eqn:Et; [intros; exact Li|].
+    destruct (taken (R s)) as [|t0 tk] eqn:Et; [intros; apply (LX_refl _ Li)|].
     destruct (rd_stop (R s)) eqn:Est.
     + cbn [read_add_terminates_when_stopped]. intros _ _.
       unfold notify_all, notify. fold (notifyf_all (fun _ => SClose) (fun _ => terminated) (H s) (t0 :: tk)).
-      apply (LI_finish s _ (map (fun x => (fun _ : obj => SClose, fun _ : obj => terminated, x)) (t0 :: tk)) [] Li He).
+      apply (LX_finish s _ (map (fun x => (fun _ : obj => SClose, fun _ : obj => terminated, x)) (t0 :: tk)) Li He).
       * apply Forall_triples. apply terminal_const. reflexivity.
       * rewrite map_snd_triples. unfold live, live_reads. cbn [R setHR r_set_tb rq taken batches rd_stop P C S lq_pend app].
         rewrite Et, Est. change (live_pend (setHR s _ _)) with (live_pend s).
@@ -1195,11 +1316,11 @@ Proof.
     rewrite batch_slots_map_idx; [apply Permutation_refl|]. intros b. destruct (ctx_eqb _ _); reflexivity.
   - (* ReadsApplied *) intros _ _. apply readsApplied_LI; assumption.
   - (* ReadsDropped *)
-    destruct (rd_stop (R s)) eqn:Est; [intros; exact Li|]. intros _ _.
+    destruct (rd_stop (R s)) eqn:Est; [intros; apply (LX_refl _ Li)|]. intros _ _.
     set (hit := fun b : (N * N) * (N * list slot) => ctx_eqb (fst b) (lo, hi)).
     unfold notify_all, notify.
     fold (notifyf_all (fun _ => SDrop) (fun _ => mkRes cDropped 0 0) (H s) (batch_slots (filter hit (batches (R s))))).
-    apply (LI_finish s _ (map (fun x => (fun _ : obj => SDrop, fun _ : obj => mkRes cDropped 0 0, x)) (batch_slots (filter hit (batches (R s))))) [] Li He).
+    apply (LX_finish s _ (map (fun x => (fun _ : obj => SDrop, fun _ : obj => mkRes cDropped 0 0, x)) (batch_slots (filter hit (batches (R s))))) Li He).
     + apply Forall_triples. apply terminal_const. reflexivity.
     + rewrite map_snd_triples. unfold live, live_reads. cbn [R setHR r_set_b rq taken batches rd_stop P C S lq_pend app].
       rewrite Est. change (live_pend (setHR s _ _)) with (live_pend s).
@@ -1208,20 +1329,20 @@ Proof.
     + apply Li.
     + apply Li.
   - (* Tick *)
-    intros _ _. apply (LI_weaken s _ [] Li); [| | apply Permutation_refl | apply Li | apply Li].
+    intros _ _. apply (LI_weaken s _ [] Li); [| | apply Permutation_refl | apply Li | apply Li | reflexivity | auto | auto | intros y []].
     + apply (HI_ext (H s)); try reflexivity. apply Li.
     + intros y Hy. apply (ok_slot_ext (H s)); try reflexivity. exact Hy.
   - (* GcP *) intros _ _. apply gc_at_LI; assumption.
   - (* GcC *) intros _ _. apply x_gc_LI_C; assumption.
   - (* GcS *) intros _ _. apply x_gc_LI_S; assumption.
   - (* DropP *)
-    destruct (take s cid sid key (h_clock (H s))) as [sl|] eqn:Et; [|intros; exact Li]. intros _ _.
+    destruct (take s cid sid key (h_clock (H s))) as [sl|] eqn:Et; [|intros; apply (LX_refl _ Li)]. intros _ _.
     destruct (take_some s _ _ _ _ _ Li Et) as (Est & Ef & Hf & Hin).
     apply (LI_notify_pend s _ SDrop (mkRes cDropped 0 0) key sl Li He); auto.
     + cbn. apply NoDup_remove_key. apply Li.
     + apply Li.
   - (* DropC *)
-    destruct (x_match (H s) (C s) key) as [sl|] eqn:Em; [|intros; exact Li]. intros _ _.
+    destruct (x_match (H s) (C s) key) as [sl|] eqn:Em; [|intros; apply (LX_refl _ Li)]. intros _ _.
     apply x_match_some in Em.
     apply (LI_x_notify s _ (fun _ => SDrop) (fun _ => mkRes cDropped 0 0) sl (live_pend s ++ live_reads s) (olist (x_pend (S s)) ++ olist (lq_pend s)) Li He).
     + apply terminal_const. reflexivity.
@@ -1243,7 +1364,7 @@ Proof.
       * reflexivity.
       * apply Li.
       * apply Li.
-    + destruct (_ && _); [intros; exact Li | cbn; intros X; discriminate].
+    + destruct (_ && _); [intros; apply (LX_refl _ Li) | cbn; intros X; discriminate].
   - (* AppliedTake *)
     destruct (take s cid sid key (h_clock (H s))) as [sl|] eqn:Et; intros _ _.
     + destruct (take_some s _ _ _ _ _ Li Et) as (Est & Ef & Hf & Hin).
@@ -1253,13 +1374,15 @@ Proof.
       * apply Li.
     + same_live Li.
   - (* AppliedGc *)
-    destruct (ap_now (P s)) as [[k now]|]; [|intros; exact Li]. intros _ _.
-    assert (Li1 : LI (setHP s (H s) (p_set_ap (P s) None))) by (same_live Li).
-    destruct (now =? _); [exact Li1|].
-    destruct (gc_at_LI _ k now Li1 He) as [Li2 _].
-    apply (LI_same_heap _ _ Li2); [reflexivity | apply Permutation_refl | apply Li2 | apply Li2].
+    destruct (ap_now (P s)) as [[k now]|]; [|intros; apply (LX_refl _ Li)]. intros _ _.
+    assert (Lx1 : LX s (setHP s (H s) (p_set_ap (P s) None))) by (same_live Li).
+    destruct (now =? _); [exact Lx1|].
+    destruct (gc_at_LI _ k now (proj1 Lx1) He) as [[Li2 Ef2] _].
+    split.
+    + refine (proj1 (LI_same_heap _ _ Li2 _ _ _ _)); [reflexivity | apply Permutation_refl | apply Li2 | apply Li2].
+    + refine (EF_ext _ _ _ _ _ _ _ _ _ _ Ef2); reflexivity.
   - (* CCApply *)
-    destruct (x_match (H s) (C s) key) as [sl|] eqn:Em; [|intros; exact Li]. intros _ _.
+    destruct (x_match (H s) (C s) key) as [sl|] eqn:Em; [|intros; apply (LX_refl _ Li)]. intros _ _.
     apply x_match_some in Em.
     apply (LI_x_notify s _ (fun _ => SOther) (fun _ => mkRes (if rej then cRejected else cCompleted) 0 0) sl (live_pend s ++ live_reads s) (olist (x_pend (S s)) ++ olist (lq_pend s)) Li He).
     + intros o. cbn. destruct rej; reflexivity.
@@ -1270,7 +1393,7 @@ Proof.
     + apply Li.
   - (* SSApply *)
     destruct (ign && abo); [cbn; intros X; discriminate|].
-    destruct (x_match (H s) (S s) key) as [sl|] eqn:Em; [|intros; exact Li]. intros _ _.
+    destruct (x_match (H s) (S s) key) as [sl|] eqn:Em; [|intros; apply (LX_refl _ Li)]. intros _ _.
     apply x_match_some in Em.
     apply (LI_x_notify s _ (fun _ => SOther)
              (fun _ => if ign then mkRes cRejected 0 0 else if abo then mkRes cAborted 0 0 else mkRes cCompleted idx 0) sl
@@ -1282,22 +1405,28 @@ Proof.
     + apply Li.
     + apply Li.
   - (* CommitP *)
-    destruct (take s cid sid key (h_clock (H s))) as [sl|] eqn:Et; [|intros; exact Li]. intros He' Hb'.
+    destruct (take s cid sid key (h_clock (H s))) as [sl|] eqn:Et; [|intros; apply (LX_refl _ Li)]. intros He' Hb'.
     destruct (take_some s _ _ _ _ _ Li Et) as (Est & Ef & Hf & Hin).
-    destruct (notify_commit_ok (H s) sl (li_h s Li) He (ok_of_live s sl Li Hin) He' Hb') as (Hi' & _ & Hold).
-    apply (LI_weaken s _ [] Li); [exact Hi' | exact Hold | apply Permutation_refl | apply Li | apply Li].
-  - (* CommitBorrow *) cbn [proposal_committed_under_lock]. intros; exact Li.
-  - (* CommitFire *) cbn [proposal_committed_under_lock]. intros; exact Li.
+    destruct (notify_commit_ok (H s) sl (li_h s Li) He (ok_of_live s sl Li Hin) He' Hb') as (Hi' & Hfr & Hold).
+    destruct Hfr as (_ & _ & _ & Fq & _ & _ & Fst & _).
+    apply (LI_weaken s _ [] Li); [exact Hi' | exact Hold | apply Permutation_refl | apply Li | apply Li | exact Fq | | | intros y []].
+    + intros r. cbn [H setH]. rewrite notify_commit_nterm. auto.
+    + intros r. cbn [H setH]. destruct (Fst r) as (X1 & _ & X3). auto.
+  - (* CommitBorrow *) cbn [proposal_committed_under_lock]. intros; apply (LX_refl _ Li).
+  - (* CommitFire *) cbn [proposal_committed_under_lock]. intros; apply (LX_refl _ Li).
   - (* CommitC *)
-    destruct (x_match (H s) (C s) key) as [sl|] eqn:Em; [|intros; exact Li]. intros He' Hb'.
+    destruct (x_match (H s) (C s) key) as [sl|] eqn:Em; [|intros; apply (LX_refl _ Li)]. intros He' Hb'.
     apply x_match_some in Em.
     assert (Hin : In sl (live s)) by (unfold live; rewrite Em; cbn; apply in_or_app; right; apply in_or_app; right; left; reflexivity).
-    destruct (notify_commit_ok (H s) sl (li_h s Li) He (ok_of_live s sl Li Hin) He' Hb') as (Hi' & _ & Hold).
-    apply (LI_weaken s _ [] Li); [exact Hi' | exact Hold | apply Permutation_refl | apply Li | apply Li].
+    destruct (notify_commit_ok (H s) sl (li_h s Li) He (ok_of_live s sl Li Hin) He' Hb') as (Hi' & Hfr & Hold).
+    destruct Hfr as (_ & _ & _ & Fq & _ & _ & Fst & _).
+    apply (LI_weaken s _ [] Li); [exact Hi' | exact Hold | apply Permutation_refl | apply Li | apply Li | exact Fq | | | intros y []].
+    + intros r. cbn [H setH]. rewrite notify_commit_nterm. auto.
+    + intros r. cbn [H setH]. destruct (Fst r) as (X1 & _ & X3). auto.
   - (* CloseR *) intros _ Hb. apply closeR_LI; assumption.
   - (* CloseP *) intros _ Hb. apply closeP_LI; assumption.
   - (* CloseC *)
-    destruct (x_open (C s)); [|intros; exact Li]. unfold x_close.
+    destruct (x_open (C s)); [|intros; apply (LX_refl _ Li)]. unfold x_close.
     destruct (x_pend (C s)) as [sl|] eqn:Em; intros _ _.
     + apply (LI_x_notify s _ (fun _ => SClose) (fun _ => terminated) sl (live_pend s ++ live_reads s) (olist (x_pend (S s)) ++ olist (lq_pend s)) Li He).
       * apply terminal_const. reflexivity.
@@ -1330,104 +1459,14 @@ Proof.
 Qed.
 
 (* ================================================================== *)
-(* runs                                                                 *)
-Fixpoint env_ok (ops : list op) (s : st) : Prop :=
-  h_broken (H s) = false /\ match ops with [] => True | o :: ops' => env_ok ops' (step s o) end.
-
-Lemma step_LI : forall s o, LI s -> h_broken (H (step s o)) = false -> LI (step s o).
+(* one step of the machine (with the rollback of a panicking step) *)
+Lemma step_LX : forall s o, LI s -> stop_closed s -> inflight_keys s ->
+  h_broken (H (step s o)) = false -> LX s (step s o).
 Proof.
-  intros s o Li. unfold step. destruct (h_err (H s) =? 0) eqn:E0; cbn [negb]; [|intros; exact Li].
+  intros s o Li Hsc Hif. unfold step. destruct (h_err (H s) =? 0) eqn:E0; cbn [negb]; [|intros; apply (LX_refl _ Li)].
   apply N.eqb_eq in E0. destruct (h_err (H (step0 s o)) =? 0) eqn:E1.
   - apply N.eqb_eq in E1. intros Hb. apply step0_LI; assumption.
-  - intros _. apply (LI_weaken s _ [] Li); [| | apply Permutation_refl | apply Li | apply Li].
+  - intros _. apply (LI_weaken s _ [] Li); [| | apply Permutation_refl | apply Li | apply Li | reflexivity | auto | auto | intros y []].
     + apply (HI_ext (H s)); try reflexivity. apply Li.
     + intros y Hy. apply (ok_slot_ext (H s)); try reflexivity. exact Hy.
-Qed.
-
-Lemma env_ok_head : forall ops s, env_ok ops s -> h_broken (H s) = false.
-Proof. intros [|o ops] s Hs; apply Hs. Qed.
-
-Lemma run_LI : forall ops s, LI s -> env_ok ops s -> LI (run ops s).
-Proof.
-  induction ops as [|o ops IH]; intros s Li He; [exact Li|]. cbn [run fold_left]. destruct He as [_ He].
-  apply IH; [|exact He]. apply step_LI; [exact Li | apply (env_ok_head ops); exact He].
-Qed.
-
-Lemma init_LI : forall ps nc a b, LI (init ps nc a b).
-Proof.
-  intros. constructor.
-  - constructor; cbn.
-    + intros r. exact I.
-    + intros r e [].
-    + intros o Ho. lia.
-    + intros o Ho. lia.
-    + intros o Ho. lia.
-    + intros o [].
-    + constructor.
-    + intros r Hr. lia.
-    + intros o Ho. lia.
-  - cbn. constructor.
-  - cbn. constructor.
-  - cbn. constructor.
-  - reflexivity.
-Qed.
-
-Lemma reachable_LI : forall ps nc a b ops, env_ok ops (init ps nc a b) -> LI (run ops (init ps nc a b)).
-Proof. intros. apply run_LI; [apply init_LI | assumption]. Qed.
-
-(* ---- the property theorems ---- *)
-Lemma at_most_one_terminal_proved : forall ps nc a b ops, env_ok ops (init ps nc a b) ->
-  forall r, (nterm (got (run ops (init ps nc a b)) r) <= 1)%nat.
-Proof. intros ps nc a b ops He r. apply shape_nterm_le1. apply (hi_shape _ (li_h _ (reachable_LI ps nc a b ops He))). Qed.
-
-Lemma committed_at_most_once_and_first_proved : forall ps nc a b ops, env_ok ops (init ps nc a b) ->
-  forall r, (ncomm (got (run ops (init ps nc a b)) r) <= 1)%nat /\
-            (forall pre e post, got (run ops (init ps nc a b)) r = pre ++ e :: post -> is_committed e = true -> pre = []).
-Proof.
-  intros ps nc a b ops He r. pose proof (hi_shape _ (li_h _ (reachable_LI ps nc a b ops He)) r) as Hs. split.
-  - apply shape_ncomm_le1. exact Hs.
-  - intros pre e post Eg Hc. eapply shape_committed_first; [exact Hs | exact Eg | exact Hc].
-Qed.
-
-Lemma no_cross_talk_proved : forall ps nc a b ops, env_ok ops (init ps nc a b) ->
-  forall r e, In e (got (run ops (init ps nc a b)) r) -> e_to e = r.
-Proof. intros ps nc a b ops He r e. apply (hi_to _ (li_h _ (reachable_LI ps nc a b ops He))). Qed.
-
-(* what a table or queue still references is exactly the requests that have no terminal
-   result yet, each once, through the object that request owns *)
-Lemma live_requests_have_no_result_proved : forall ps nc a b ops, env_ok ops (init ps nc a b) ->
-  let s := run ops (init ps nc a b) in
-  NoDup (map sr (live s)) /\
-  forall sl, In sl (live s) -> nterm (got s (sr sl)) = 0%nat /\ o_owner (h_objs (H s) (so sl)) = sr sl /\
-                               r_rel (h_reqs (H s) (sr sl)) = false.
-Proof.
-  intros ps nc a b ops He s. pose proof (reachable_LI ps nc a b ops He) as Li. fold s in Li. split; [apply Li|].
-  intros sl Hin. destruct (ok_of_live s sl Li Hin) as (_ & _ & C & _ & E & F). auto.
-Qed.
-
-(* F3 repaired: read requests the step worker hands to a stopped table are terminated *)
-Lemma stopped_add_terminates_taken_proved : forall ps nc a b ops lo hi, env_ok ops (init ps nc a b) ->
-  let s := run ops (init ps nc a b) in
-  h_err (H s) = 0 -> rd_stop (R s) = true ->
-  let s' := step s (AddReads lo hi) in
-  h_err (H s') = 0 /\ taken (R s') = [] /\ forall sl, In sl (taken (R s)) -> nterm (got s' (sr sl)) = 1%nat.
-Proof.
-  intros ps nc a b ops lo hi Henv s He Hst. pose proof (reachable_LI ps nc a b ops Henv) as Li. fold s in Li.
-  unfold step. rewrite He. cbn [N.eqb negb step0]. rewrite Hst.
-  destruct (taken (R s)) as [|t0 tk] eqn:Et.
-  - rewrite He. cbn. rewrite Et. repeat split; auto. intros sl [].
-  - cbn [read_add_terminates_when_stopped].
-    unfold notify_all, notify. fold (notifyf_all (fun _ => SClose) (fun _ => terminated) (H s) (t0 :: tk)).
-    set (s1 := setHR s (notifyf_all (fun _ : obj => SClose) (fun _ : obj => terminated) (H s) (t0 :: tk)) (r_set_tb (R s) [] (batches (R s)))).
-    destruct (LI_finish s s1 (map (fun x => (fun _ : obj => SClose, fun _ : obj => terminated, x)) (t0 :: tk)) [] Li He) as (Li1 & Hfr & Hone).
-    + apply Forall_triples. apply terminal_const. reflexivity.
-    + rewrite map_snd_triples. unfold live, live_reads. cbn [s1 R setHR r_set_tb rq taken batches rd_stop P C S lq_pend app].
-      rewrite Et, Hst. change (live_pend (setHR s _ _)) with (live_pend s).
-      apply (perm_mid _ (live_pend s) _ _ _ (t0 :: tk) []). cbn [app]. rewrite !app_nil_r.
-      apply (Permutation_app_comm (rq (R s)) (t0 :: tk)).
-    + cbn [s1 H setHR]. apply notifyf_all_nseq.
-    + apply Li.
-    + apply Li.
-    + destruct Hfr as (E1 & _). rewrite E1. cbn [N.eqb]. split; [exact E1|]. split; [reflexivity|].
-      intros sl Hin. apply Hone. rewrite map_snd_triples. exact Hin.
 Qed.
